@@ -15,7 +15,15 @@
    configured as `actions` through the public fd.SetupActions on a real running pipeline with a
    recording action ("Do invoked <=> expected").  The README result tables are replayed the same way
    as literal vectors.
-3. Verdict: real decision != documented value where that is decided (T/F), or decisions that differ
+3. Concurrency family: for a seeded selection of rules (mostly case-insensitive string operators, plus
+   trees, other leaves, match_fields rules and the README vectors) ONE checker / ActionPluginStaticInfo
+   per rule is shared, as in Pipeline.newProc, by several real processors driven by concurrent
+   goroutines on their own copies of the events (processor.doActions chains, then all goroutines on
+   processor.isMatch of the same rule for a time slice), and by a real parallel pipeline
+   (GOMAXPROCS*2 processors, every event sent many times from different sources).  Every concurrent
+   decision must equal the sequential one.  Cannot fail on correct code; detection of a shared-state
+   bug depends on the schedule (probabilistic; bounded time).
+4. Verdict: real decision != documented value where that is decided (T/F), or decisions that differ
    between orders/paths.  Known defects are matched by narrow signatures (known_findings.d/C14.json).
 """
 import json
@@ -291,6 +299,7 @@ def run_harness(ctx, sets, rules, tag=""):
     rc, txt = ctx.run_bin(fd_bin, "^TestVerifC14E2E$", env=env, timeout=1500)
     if rc != 0 or not os.path.exists(e2e_out):
         raise vlib.Infra("C14 end-to-end harness failed rc=%s:\n%s" % (rc, txt[-3000:]))
+    ctx._c14 = {"events": evp, "fd_bin": fd_bin, "pl_bin": pl_bin, "extract": fd_out}
     return load_ndjson(fd_out), load_ndjson(pl_out), load_ndjson(e2e_out)
 
 
@@ -326,6 +335,7 @@ def compare(ctx, sets, abs_events, rules, fd, pl, e2e):
     drift_samples = []
     n_e2e = 0
     per_part = {}
+    ctx._c14_seq = seq = {}       # rule id -> per event: the one sequential decision (None: none / disputed)
     for r in rules:
         evs = sets[r.set]
         n = len(evs)
@@ -350,8 +360,11 @@ def compare(ctx, sets, abs_events, rules, fd, pl, e2e):
             if len(v) != n:
                 raise vlib.Infra("result vector %s of rule %d has length %d, want %d" % (name, r.id, len(v), n))
         pp = per_part.setdefault((r.kind, r.part), [0, 0])
+        seq[r.id] = sq = [None] * n
         for i in range(n):
             got = {v[i] for _, v in vecs}
+            if len(got) == 1:
+                sq[i] = next(iter(got)) == "1"
             pairs += 1
             execs += len(vecs)
             pp[0] += 1
@@ -400,6 +413,100 @@ def compare(ctx, sets, abs_events, rules, fd, pl, e2e):
     return recs
 
 
+STR_OPS = ("equal", "contains", "prefix", "suffix", "contains_any")
+
+
+def select_concurrent(ctx, rules):
+    """seeded selection for the concurrency family: mostly case-insensitive string operators (the nodes
+    that would be tempted to keep per-node scratch state), but also every other kind of rule."""
+    q = ctx.tier == "quick"
+    seq = ctx._c14_seq
+    ok = [r for r in rules if r.id in seq]
+    ci_leaf = [r for r in ok if r.kind == "doif" and r.leaf and r.abs and r.abs["op"] in STR_OPS and r.abs.get("cs") == 0]
+    ci_tree = [r for r in ok if r.kind == "doif" and not r.leaf and '"case_sensitive":false' in r.cfg]
+    chosen = {r.id for r in ci_leaf} | {r.id for r in ci_tree}
+    other = [r for r in ok if r.kind == "doif" and r.id not in chosen and r.part != "doc"]
+    mf = [r for r in ok if r.kind == "mf" and r.part != "doc"]
+    doc = [r for r in ok if r.part == "doc"]
+
+    def take(pool, k):
+        return pool if len(pool) <= k else ctx.rng.sample(pool, k)
+    m = 1 if q else 4
+    sel = take(ci_leaf, 260 * m) + take(ci_tree, 80 * m) + take(other, 80 * m) + take(mf, 80 * m) + doc
+    return sorted(sel, key=lambda r: (r.set, r.id))
+
+
+def run_concurrent(ctx, sets, abs_events, rules):
+    """one shared checker / ActionPluginStaticInfo per rule, evaluated from several goroutines at once
+    (in-package processors; then a real parallel pipeline): every concurrent decision must be the
+    sequential one.  Detection of a shared-state bug is probabilistic, a correct tree cannot fail."""
+    sel = select_concurrent(ctx, rules)
+    seq = ctx._c14_seq
+    c = ctx._c14
+    cp = os.path.join(ctx.scratch, "c14_conc_rules.ndjson")
+    with open(cp, "w") as f:
+        for r in sel:
+            f.write(json.dumps({"id": r.id, "kind": r.kind, "set": r.set, "cfg": r.cfg}, ensure_ascii=False) + "\n")
+    budget_ms = int(os.environ.get("VERIF_C14_CONC_MS", "0")) or (500 if ctx.tier == "quick" else 6000)
+    out = os.path.join(ctx.scratch, "c14_conc_out.ndjson")
+    env = {"VERIF_C14_EVENTS": c["events"], "VERIF_C14_CONC_RULES": cp, "VERIF_C14_EXTRACT": c["extract"],
+           "VERIF_OUT": out, "VERIF_C14_CONC_MS": budget_ms}
+    rc, txt = ctx.run_bin(c["pl_bin"], "^TestVerifC14Conc$", env=env, timeout=600)
+    if rc != 0 or not os.path.exists(out):
+        raise vlib.Infra("C14 concurrency harness failed rc=%s:\n%s" % (rc, txt[-3000:]))
+    res = load_ndjson(out)
+    meta = res.pop(-1, {})
+    # the same selection on a real parallel pipeline (GOMAXPROCS*2 processors share every checker)
+    e2e_out = os.path.join(ctx.scratch, "c14_conc_e2e_out.ndjson")
+    env = {"VERIF_C14_EVENTS": c["events"], "VERIF_C14_E2E_RULES": cp, "VERIF_OUT": e2e_out, "VERIF_C14_E2E_PAR": "1"}
+    rc, txt = ctx.run_bin(c["fd_bin"], "^TestVerifC14E2E$", env=env, timeout=900)
+    if rc != 0 or not os.path.exists(e2e_out):
+        raise vlib.Infra("C14 parallel end-to-end harness failed rc=%s:\n%s" % (rc, txt[-3000:]))
+    e2e = load_ndjson(e2e_out)
+    recs = []
+    decisions = 0
+    e2e_decisions = 0
+    by = {r.id: r for r in sel}
+    for rid, r in by.items():
+        o, e = res.get(rid), e2e.get(rid)
+        if o is None or e is None:
+            raise vlib.Infra("concurrency harness returned no result for rule %d" % rid)
+        for x in (o, e):
+            if x.get("err"):
+                if x["err"].startswith("harness:"):
+                    raise vlib.Infra("concurrency harness error for rule %s: %s" % (r.cfg, x["err"]))
+                recs.append({"kind": "panic" if "panic" in x["err"] else "ctor_error", "rule_kind": r.kind, "cfg": r.cfg,
+                             "part": r.part, "error": x["err"][:300], "family": "concurrent"})
+        if o.get("err") or e.get("err"):
+            continue
+        evs = sets[r.set]
+        for i in range(len(evs)):
+            ref = seq[rid][i]
+            t, f = o["t"][i], o["f"][i]
+            decisions += t + f
+            cnt, reps = e["cnt"][i], e["reps"]
+            e2e_decisions += reps
+            if ref is None:
+                continue            # already reported by the sequential replay
+            bad_pkg = (f if ref else t)
+            bad_e2e = (reps - cnt) if ref else cnt
+            if bad_pkg or bad_e2e:
+                absev = abs_events[r.set][i] if abs_events.get(r.set) else None
+                recs.append(dict(leaf_info(r, absev), kind="decision_depends_on_concurrent_events", rule_kind=r.kind,
+                                 cfg=r.cfg, event=evs[i], part=r.part, want=r.exp[i], sequential_decision=ref,
+                                 concurrent_processors={"apply": t, "skip": f},
+                                 parallel_pipeline={"apply": cnt, "skip": reps - cnt}))
+    ctx.traces_validated += decisions + e2e_decisions
+    ctx.extra["concurrency_family"] = {
+        "rules": len(sel), "goroutines": meta.get("goroutines"), "gomaxprocs": meta.get("gomaxprocs"),
+        "budget_ms": budget_ms, "wall_ms": meta.get("wall_ms"),
+        "concurrent_decisions_in_package": decisions, "concurrent_decisions_parallel_pipeline": e2e_decisions,
+        "note": "one shared checker / ActionPluginStaticInfo per rule evaluated by several processors at once; every "
+                "decision must equal the sequential one (which is compared with the specification). A correct tree "
+                "cannot fail this family; a shared-state bug is detected only if the schedule hits it (probabilistic)."}
+    return recs
+
+
 def replay(ctx):
     """re-execute the (rule, event) pairs of a saved violation file against the current tree."""
     saved = json.load(open(ctx.replay))
@@ -441,6 +548,7 @@ def run(ctx):
         raise vlib.Infra("TLC exported too few rules: %d do_if, %d match_fields" % (ndoif, nmf))
     fd, pl, e2e = run_harness(ctx, sets, rules)
     recs = compare(ctx, sets, abs_events, rules, fd, pl, e2e)
+    recs += run_concurrent(ctx, sets, abs_events, rules)
     ctx.exhaustive = True
     ctx.rule = ("case = (rule, event): %d do_if rules (every field op x value lists x case flag; regex family; length / int / "
                 "timestamp / type leaves with all six comparators; field paths; all and/or/not trees to the depth bound over a "
@@ -448,6 +556,8 @@ def run(ctx):
                 "match_invert, 1-3 conditions, nested and dotted paths) + %d README vectors, each on every event of its part "
                 "(absent / null / number / string incl. U+0130 / object / array / nested), enumerated by TLC and ALL replayed on "
                 "the real constructors and doif.Checker.Check / processor.doActions / processor.isMatch in two event orders. "
+                "Then a seeded selection of rules is evaluated concurrently (one shared checker, several processors / a parallel "
+                "pipeline): every concurrent decision must equal the sequential one (detection probabilistic). "
                 "evaluations = (rule, event) pairs; non-trivial = pairs whose value the documentation decides (T/F), the others "
                 "(U) are only checked for order/path independence; traces = real decisions compared."
                 % (ndoif - sum(1 for r in rules if r.part == "doc" and r.kind == "doif"),
